@@ -76,7 +76,7 @@ theorem first_candidate_doubles {E sz al p} (s : St) (hE : EnvOK E) (h : ArenaWF
     ∃ c, (tryAllocLayout E sz al s).1.a.chunks = c :: s.a.chunks ∧ 0 < usable c ∧ sz ≤ usable c := by
   obtain ⟨sp, _⟩ := tryAllocLayout_spec s hE h hA hlay
   obtain ⟨hwf', _, _, _, hsh, refs, _, hcase⟩ := sp.ok p hok
-  rcases hcase with ⟨_, hlen⟩ | ⟨c, hc, _, hpos, _⟩
+  rcases hcase with ⟨_, hlen⟩ | ⟨c, hc, _, hpos, _, _⟩
   · exact Or.inl hlen
   · refine Or.inr ⟨c, hc, hpos, ?_⟩
     rcases hsh with ⟨_, ha, _, _⟩ | ⟨c0, cs, h0, h0', _, _⟩ | ⟨c1, hc1, hge, hle, _⟩
@@ -90,6 +90,23 @@ theorem first_candidate_doubles {E sz al p} (s : St) (hE : EnvOK E) (h : ArenaWF
         unfold usable Chunk.footer; show c1.size - FOOTER_SIZE = _; omega
       rw [this]; omega
 
+/-- **Geometric growth.** Every chunk the slow path acquires has a usable size of at least
+`max(2·usable(current chunk), request, 448) / 2^k`, where `k` counts the candidates that were
+refused by the allocator, rejected by the limit or unrepresentable before it: the first candidate
+doubles, and candidates are only ever halved. -/
+theorem chunk_growth_geometric {E sz al p c} (f : Bool) (s : St) (hE : EnvOK E) (h : ArenaWF E s.a) (hA : IsPow2 al)
+    (hlay : sz + al ≤ 2 ^ 63) (hok : (allocMaybe E f sz al s).2 = .ok p)
+    (hnew : (allocMaybe E f sz al s).1.a.chunks = c :: s.a.chunks) :
+    ∃ k, max (usable (s.a.cur E) * 2) (max sz DEFAULT_CHUNK_SIZE_WITHOUT_FOOTER) / 2 ^ k ≤ usable c := by
+  have sp := allocMaybe_spec f s hE h hA hlay
+  obtain ⟨_, _, _, _, _, refs, _, hcase⟩ := sp.ok p hok
+  rcases hcase with ⟨_, hlen⟩ | ⟨c', hc', _, _, _, hk⟩
+  · rw [hnew] at hlen; simp at hlen
+  · rw [hnew] at hc'
+    simp only [List.cons.injEq, and_true] at hc'
+    subst hc'
+    exact hk
+
 example : serve 8 ⟨4096, 560, 16, 4608, 512⟩ [(8, 1), (16, 8), (488, 4)] = some ⟨4096, 560, 16, 4096, 512⟩ := by decide
 
 end Bump.C18
@@ -98,3 +115,4 @@ end Bump.C18
 #print axioms Bump.C18.with_capacity_serves
 #print axioms Bump.C18.capacity_sound
 #print axioms Bump.C18.first_candidate_doubles
+#print axioms Bump.C18.chunk_growth_geometric
